@@ -157,8 +157,19 @@ pub fn build(e: &mut Ent, kind: Option<u8>, vecn: Option<u32>) -> (StepCase, Tag
             tag.vec = v;
         }
         _ => {
-            er[0] = match e.below(3) {
+            er[0] = match e.below(4) {
                 0 => e.pick(&[0u32, 1, 103, 105, 112, 114, 0xffff_ffff, 104 << 8, 0x100 + 104]),
+                // a supported number in the low bits with anything above it (the call number is all 32 bits of ER0:
+                // a comparison of a truncated or masked register takes these for 104 / 113), and one-bit neighbours
+                1 => {
+                    let n = e.pick(&[104u32, 113]);
+                    match e.below(4) {
+                        0 => n | (1u32 << (8 + e.below(24))),
+                        1 => n | ((e.u8() as u32).max(1) << 24),
+                        2 => n | ((e.u16() as u32).max(1) << 16),
+                        _ => n ^ (1u32 << e.below(8)),
+                    }
+                }
                 _ => {
                     let x = e.val32();
                     if x == 104 || x == 113 {
